@@ -139,6 +139,7 @@ type Config struct {
 	// PreemptUnlock: releasing a lock is a scheduling point too (a goroutine that was waiting for the lock may run its
 	// critical section before the releaser's next plain statement). Off: the releaser runs on to its next operation.
 	PreemptUnlock bool
+	RecvCost      time.Duration // > 0: every channel receive of the program costs this much simulated time (a slow node)
 	ChanCapDiv    int // > 1: capacities of the program's buffered channels are divided by this (floor 8), see ChanCap
 	MaxSteps    uint64
 	Trace       bool // keep a textual trace
